@@ -21,7 +21,7 @@ type IDCase struct {
 	Replies []IDRep // what the peer sends back, in order (stream: only the first is read)
 	Chunks  []int   // stream: segmentation of the reply
 	Timeout int     // datagram: client timeout in ms (only matters when no matching reply comes)
-	API     string  // stream: "" = Client.ExchangeWithConn | ExchangeConn (the package-level entry point)
+	API     string  // "" = Client.ExchangeWithConn | ExchangeConn (the package-level entry point; datagram: round 8)
 	// datagram: what decides the size of the receive buffer (client.go: EDNS0 size of the request
 	// if it has an OPT, else Client.UDPSize, else what the Conn already has, never below 512)
 	OptSize       int // 0 = request without OPT, else the advertised EDNS0 UDP size
@@ -53,6 +53,12 @@ type IDRep struct {
 // aborts the exchange instead of being skipped" (KNOWN_FINDINGS.txt). While it is listed and its
 // probe reproduces, the class foreign-malformed is replaced by well-formed foreign replies.
 const knownMalformedForeign = "dgram-malformed-foreign-aborts"
+
+// knownExchangeConnNoSkip is the id of the finding "the package-level ExchangeConn over a datagram
+// conn returns the first reply with another ID together with ErrId instead of skipping it"
+// (KNOWN_FINDINGS.txt). While it is listed and its probe reproduces, datagram cases in which a reply
+// with another ID precedes the matching one (or the deadline) go through Client.ExchangeWithConn only.
+const knownExchangeConnNoSkip = "exchangeconn-dgram-no-skip"
 
 func genIDCase(stream bool) func(t *rapid.T) IDCase {
 	return func(t *rapid.T) IDCase {
@@ -145,6 +151,15 @@ func genIDCase(stream bool) func(t *rapid.T) IDCase {
 		c.OptSize = rapid.SampledFrom([]int{0, 0, 512, 1232, 4096}).Draw(t, "optSize")
 		c.ClientUDPSize = rapid.SampledFrom([]int{0, 0, 512, 1232, 4096, 65535}).Draw(t, "clientUDPSize")
 		c.ConnUDPSize = rapid.SampledFrom([]int{0, 0, 512, 1232, 4096}).Draw(t, "connUDPSize")
+		if rapid.IntRange(0, 7).Draw(t, "entry") == 0 {
+			// the package-level entry point: it makes its own Conn (512-octet receive buffer) and
+			// knows no Client; the deadline is the one the caller has set on the net.Conn
+			c.API, c.OptSize, c.ClientUDPSize, c.ConnUDPSize = "ExchangeConn", 0, 0, 0
+			if len(c.Replies) > 0 && c.Replies[0].ID != c.ID && pbt.Known(knownExchangeConnNoSkip) {
+				pbt.Excluded(knownExchangeConnNoSkip)
+				c.API = ""
+			}
+		}
 		buf := c.udpBuffer()
 		for i := range c.Replies {
 			if c.Replies[i].Kind == "foreign-malformed" {
@@ -306,17 +321,24 @@ func runID(c IDCase, firstMatch int) error {
 	}
 	cli := &dns.Client{Net: "udp", Timeout: tmo, UDPSize: uint16(c.ClientUDPSize)}
 	t0 := time.Now()
-	rep, _, err := cli.ExchangeWithConn(q, &dns.Conn{Conn: cc, UDPSize: uint16(c.ConnUDPSize)})
+	var rep *dns.Msg
+	var err error
+	if c.API == "ExchangeConn" {
+		cc.SetDeadline(t0.Add(tmo))
+		rep, err = dns.ExchangeConn(cc, q)
+	} else {
+		rep, _, err = cli.ExchangeWithConn(q, &dns.Conn{Conn: cc, UDPSize: uint16(c.ConnUDPSize)})
+	}
 	el := time.Since(t0)
 	if len(sent) < 2 || uint16(sent[0])<<8|uint16(sent[1]) != c.ID {
 		return fmt.Errorf("request on the wire does not carry ID %d: %s", c.ID, hexHead(sent))
 	}
 	if firstMatch >= 0 {
 		if err != nil {
-			return fmt.Errorf("datagram exchange: matching reply is #%d of %v (receive buffer %d octets: OPT %d, Client.UDPSize %d, Conn.UDPSize %d) but the exchange failed: %v", firstMatch, c.Replies, c.udpBuffer(), c.OptSize, c.ClientUDPSize, c.ConnUDPSize, err)
+			return fmt.Errorf("datagram exchange%s: matching reply is #%d of %v (receive buffer %d octets: OPT %d, Client.UDPSize %d, Conn.UDPSize %d) but the exchange failed: %v (returned reply #%d)", apiNote(c.API), firstMatch, c.Replies, c.udpBuffer(), c.OptSize, c.ClientUDPSize, c.ConnUDPSize, err, replyOrdinal(rep))
 		}
 		if rep == nil || rep.Id != c.ID || replyOrdinal(rep) != firstMatch {
-			return fmt.Errorf("datagram exchange returned reply #%d; want #%d, the first with the request's ID %d; replies %v", replyOrdinal(rep), firstMatch, c.ID, c.Replies)
+			return fmt.Errorf("datagram exchange%s returned reply #%d; want #%d, the first with the request's ID %d; replies %v", apiNote(c.API), replyOrdinal(rep), firstMatch, c.ID, c.Replies)
 		}
 		want := idReplySized(c.ID, firstMatch, c.Replies[firstMatch].Size)
 		if got := rep.Answer[0].(*dns.NULL).Data; got != string(want[fullOverhead:]) {
@@ -328,7 +350,7 @@ func runID(c IDCase, firstMatch int) error {
 		return fmt.Errorf("datagram exchange: no reply carries the request's ID %d, yet reply #%d (ID %d) was returned; replies %v", c.ID, replyOrdinal(rep), rep.Id, c.Replies)
 	}
 	if !isTimeout(err) {
-		return fmt.Errorf("datagram exchange without a matching reply failed with %v, want a timeout", err)
+		return fmt.Errorf("datagram exchange%s without a matching reply failed with %v, want a timeout (replies %v)", apiNote(c.API), err, c.Replies)
 	}
 	if el > 5*time.Second {
 		return fmt.Errorf("datagram exchange without a matching reply took %v with a %v timeout", el, tmo)
@@ -336,7 +358,19 @@ func runID(c IDCase, firstMatch int) error {
 	return nil
 }
 
+func apiNote(api string) string {
+	if api == "" {
+		return ""
+	}
+	return " through " + api
+}
+
 func init() {
+	// request ID 7 over an in-memory datagram conn; datagram 1: well-formed reply with ID 8, datagram 2:
+	// the reply with ID 7, both in the socket buffer when ExchangeConn starts to read
+	pbt.Probe(knownExchangeConnNoSkip, func() error {
+		return runID(IDCase{ID: 7, Timeout: 60, API: "ExchangeConn", Replies: []IDRep{{Kind: "foreign", ID: 8}, {Kind: "match", ID: 7}}}, 1)
+	})
 	pbt.Probe(knownMalformedForeign, func() error {
 		return runID(IDCase{ID: 7, Timeout: 60, Replies: []IDRep{{Kind: "foreign-malformed", ID: 9}, {Kind: "match", ID: 7}}}, 1)
 	})
